@@ -533,6 +533,11 @@ def run_cases(run, cases, count=True):
             if not margin_ok(c, m):
                 skipped += 1
                 continue
+            if count and c["style"] == "dyadic":
+                if c["mode"] != "nn" and m[3] == 0:
+                    run.hist("dyadic_stream", "cutoff-boundary-hit-judged")
+                if any(len(set(row[:i] + row[i + 1:])) < len(row) - 1 for Dt in D for i, row in enumerate(Dt)):
+                    run.hist("dyadic_stream", "exact-distance-ties-judged")
             wrapped = any(abs(float(D[t][i][j]) - sum((float(c["pos"][t][i][a]) - float(c["pos"][t][j][a])) ** 2
                                                       for a in range(c["d"]))) > 1e-9
                           for t in range(c["T"]) for i in range(c["n"]) for j in range(i))
@@ -656,8 +661,8 @@ def failing_big(c):
 # ----------------------------------------------------------------------------- pipeline entry points
 
 def correspond(run):
-    n = 150 if run.tier == "quick" else 2500
-    nf = 60 if run.tier == "quick" else 800
+    n = 400 if run.tier == "quick" else 12000
+    nf = 150 if run.tier == "quick" else 4000
     cases = common.load_corpus(PROP)
     cases += [gen_case(run.rng) for _ in range(n)] + [gen_file_case(run.rng) for _ in range(nf)]
     dis, sf = run_cases(run, cases)
@@ -768,5 +773,17 @@ def replay(run, rp):
         if f:
             print(f"  {f[0]}: {f[1]}")
         return bool(f)
+    # a "no longer checks" record: regenerate from the current tree, rebuild, and see whether the listed
+    # theorems / translator / correspondence check again
+    import sys
+    st = common.proof_stage(run, sys.modules[__name__])
+    names = {b["name"] for b in rp.get("broken", [])}
+    still = [b for b in st["broken"] if b["name"] in names or b["kind"] in ("translator", "proof")]
+    for b in still:
+        print(f"  still broken: {b['kind']} {b['name']}")
+    if still or not st["driver_ok"]:
+        return True
     dis, sf = run_cases(run, rp.get("cases", []), count=False)
+    for c, why in dis[:3]:
+        print("  still disagrees: " + why[:200])
     return bool(dis or sf)
